@@ -27,7 +27,7 @@ RULE = (
     "Non-trivial = the mutation touches a variable the formula uses; distinct by (formula, mutation, frames)."
 )
 ASSUMPTIONS = [
-    "pandas materializer; outputs pandas/numpy/sparse; values compared at 1e-9",
+    "pandas materializer and narwhals on the same pandas frames; outputs pandas/numpy/sparse; values compared at 1e-9",
     "an unseen level that is only declared (never observed) needs no warning",
 ]
 
@@ -138,7 +138,10 @@ def check_case(case) -> Outcome:
     s = F.formula_string(fc)
     df = F.build(tr)
     na = case.get("na_action", "drop")
-    mm = model_matrix(s, df, ensure_full_rank=efr, output=output, na_action=na)
+    mkw = {"materializer": "narwhals"} if case.get("mat") == "narwhals" else {}
+    if mkw:
+        out.label("narwhals-materializer")
+    mm = model_matrix(s, df, ensure_full_rank=efr, output=output, na_action=na, **mkw)
     spec = mm.model_spec
     out.label("na:" + na)
     # levels are learnt from the rows that survive the missing-data policy of the training build
@@ -277,6 +280,7 @@ def gen(max_rows=10):
             "na_action": draw(st.sampled_from(["drop", "drop", "ignore"])),
             "subset": draw(st.one_of(st.none(), st.none(), st.lists(st.integers(0, 5), min_size=1, max_size=2))),
             "rename": draw(st.sampled_from([None, None, "A", "B"])),
+            "mat": draw(st.sampled_from(["pandas", "pandas", "narwhals"])),
         }
 
     return strat()
